@@ -28,7 +28,15 @@ REGIMES = ('fresh', 'zeros', 'normal', 'wide')
 
 
 def correspondence(ctx):
-    gen = torch.Generator().manual_seed(ctx.seed * 1009 + 1)
+    """thorough tier: several independent generator seeds (the quick tier runs one)"""
+    for rep in range(1 if ctx.quick() else 6):
+        _correspondence_once(ctx, rep)
+        if ctx.elapsed() > 1500:
+            break
+
+
+def _correspondence_once(ctx, rep=0):
+    gen = torch.Generator().manual_seed(ctx.seed * 1009 + 1 + 104729 * rep)
     E = R.entries('quick' if ctx.quick() else 'full')
     jobs = []
     for e in E:
